@@ -11,7 +11,9 @@ package verifharness
 // is evaluated on the real chains' own views, independently of the model.
 //
 // op language (all numbers decimal; chains 0,1,2 real, 3 = a chain name without client; token ids are local to a
-// chain, 0 = native coin; accounts: 0 user, 1 endpoint, 2 packet, 3 agent, 4 execute, 5 relayer (fee recipient), 6, 7 receivers, 8, 9 further senders):
+// chain, 0 = native coin; accounts: 0 user, 1 endpoint, 2 packet, 3 agent, 4 execute, 5 relayer (fee recipient), 6, 7 receivers, 8, 9 further senders,
+// 10 forwarder, 11 log emitter, 12 callback switch, 13..20 module accounts of the app — gov, fee collector, ibc transfer, bonded pool,
+// not-bonded pool, xibc packet module, aggregate, evm — to which the bank refuses to credit the native coin):
 //   reset                                         -> ok
 //   deploy <chain> <tok>                          -> ok        (new ERC-20 deployed by the endpoint; user approves the endpoint)
 //   bind <chain> <tok> <oriChain> <oriTok> <scale> -> ok       (endpoint.bindToken through the aggregate keeper)
@@ -85,6 +87,7 @@ type c03Obs struct {
 	stuck      bool
 	cb         bool // callback address = the switch contract
 	cbRejected int  // genuine acknowledgement deliveries that failed because the callback contract reverted
+	feeBlocked int  // … that failed because the relay fee (native coin) could not be credited to a blocked module account
 }
 
 type c03Harness struct {
@@ -206,6 +209,9 @@ func (h *c03Harness) view(i int) c03View {
 	ntok := len(w.tok[i])
 	for t := 0; t < ntok; t++ {
 		for a := 0; a < c03NAcc; a++ {
+			if t == 0 && a >= c03AccGov {
+				continue // the native balances of the module accounts move with every block (fees, rewards): not part of the dump
+			}
 			if b := w.balance(i, w.tok[i][t], w.acc[a]); b.Sign() != 0 {
 				parts = append(parts, fmt.Sprintf("b:%d.%d=%s", t, a, b))
 			}
@@ -617,6 +623,86 @@ func (h *c03Harness) observeNew(call string, nested bool) {
 		h.keys = append(h.keys, k)
 	}
 	sort.Strings(h.keys[:0]) // keys stay in creation order; nothing to sort
+}
+
+// isBlocked: the bank of chain i refuses to credit the account (asked of the real app)
+func (h *c03Harness) isBlocked(i int, a common.Address) bool {
+	return h.w.ch[i].App.BankKeeper.BlockedAddr(sdk.AccAddress(a.Bytes()))
+}
+
+// valueSnapshot: by part — storage and code digests of every contract of the world, native balances of every account and
+// contract (the module accounts' native balances move with every block and are left out)
+func (h *c03Harness) valueSnapshot(i int) map[string]string {
+	w := h.w
+	ctx := w.ch[i].GetContext()
+	snap := map[string]string{}
+	contracts := map[string]common.Address{"packet": w.acc[c03AccPacket], "endpoint": w.acc[c03AccEndpoint], "execute": w.acc[c03AccExecute],
+		"agent": w.acc[c03AccAgent], "forwarder": w.acc[c03AccFwd], "switch": w.acc[c03AccSwitch], "emitter": w.acc[c03AccEmitter]}
+	for t, a := range w.tok[i] {
+		if t != 0 {
+			contracts[fmt.Sprintf("token%d", t)] = a
+		}
+	}
+	for name, addr := range contracts {
+		var slots []string
+		w.ch[i].App.EvmKeeper.ForEachStorage(ctx, addr, func(k, v common.Hash) bool {
+			slots = append(slots, k.Hex()[58:]+"="+strings.TrimLeft(v.Hex()[2:], "0"))
+			return true
+		})
+		sort.Strings(slots)
+		snap["storage."+name] = strings.Join(slots, ";")
+	}
+	for a := 0; a < c03AccGov; a++ {
+		snap[fmt.Sprintf("native.%d", a)] = w.balance(i, common.Address{}, w.acc[a]).String()
+	}
+	return snap
+}
+
+func c03SnapDiff(pre, post map[string]string) string {
+	var d []string
+	for k, v := range pre {
+		if post[k] != v {
+			d = append(d, fmt.Sprintf("%s: %s", k, c03Clip(c03SlotDiff(v, post[k]))))
+		}
+	}
+	for k := range post {
+		if _, ok := pre[k]; !ok {
+			d = append(d, k+": new")
+		}
+	}
+	sort.Strings(d)
+	return strings.Join(d, " | ")
+}
+
+// c03SlotDiff: the slots (or the value) that differ between two snapshot parts
+func c03SlotDiff(a, b string) string {
+	if !strings.Contains(a, "=") && !strings.Contains(b, "=") {
+		return a + " became " + b
+	}
+	am, bm := map[string]string{}, map[string]string{}
+	for _, x := range strings.Split(a, ";") {
+		if kv := strings.SplitN(x, "=", 2); len(kv) == 2 {
+			am[kv[0]] = kv[1]
+		}
+	}
+	for _, x := range strings.Split(b, ";") {
+		if kv := strings.SplitN(x, "=", 2); len(kv) == 2 {
+			bm[kv[0]] = kv[1]
+		}
+	}
+	var out []string
+	for k, v := range am {
+		if bm[k] != v {
+			out = append(out, fmt.Sprintf("slot ..%s %s=>%s", k, v, bm[k]))
+		}
+	}
+	for k, v := range bm {
+		if _, ok := am[k]; !ok {
+			out = append(out, fmt.Sprintf("slot ..%s (new) %s", k, v))
+		}
+	}
+	sort.Strings(out)
+	return strings.Join(out, ", ")
 }
 
 // relayBytes: the packet (and acknowledgement) bytes a relay op carries — the recorded ones, forged variants, or made-up
@@ -1083,6 +1169,17 @@ func (h *c03Harness) apply0(op string) string {
 			return new(big.Int).Neg(w.outTokens(d, common.HexToAddress(o.oriToken), h.name(s)))
 		}
 		credBefore := credited()
+		// everything on the destination that carries value or that a later step reads: storage and code of every contract,
+		// native balances of the contracts and accounts — compared in full if the receive ends in an error acknowledgement
+		deepBefore := h.valueSnapshot(d)
+		// does the packet release the native coin to an account the bank blocks (module accounts)?
+		blockedRelease := false
+		if o := h.obs[key]; o != nil && o.amount != nil && o.amount.Sign() > 0 && o.oriToken != "" && common.HexToAddress(o.oriToken) == (common.Address{}) && rec != nil {
+			var td packettypes.TransferData
+			if td.ABIDecode(rec.packet.TransferData) == nil && h.isBlocked(d, common.HexToAddress(td.Receiver)) {
+				blockedRelease = true
+			}
+		}
 		// would minting amount*10^scale on the destination pass 2^256-1 ?
 		overflows := false
 		if o := h.obs[key]; o != nil && o.amount != nil && o.oriToken == "" && d != c03Ghost {
@@ -1151,6 +1248,27 @@ func (h *c03Harness) apply0(op string) string {
 		if o.fromNested {
 			r.Count(fmt.Sprintf("recv.hop2.code%d", c03Min(a.Code, 1)))
 		}
+		if blockedRelease {
+			if a.Code != 0 {
+				r.Count("recv.err.blocked-receiver")
+				if len(rec.packet.CallData) == 0 {
+					r.Count("recv.err.blocked-receiver.plain")
+				} else {
+					r.Count("recv.err.blocked-receiver.with-call")
+				}
+			} else {
+				h.find("C03:blocked-receiver-credited", fmt.Sprintf("packet %s: success acknowledgement although the receiver is an account the bank refuses to credit", key), "code 0", "error acknowledgement")
+			}
+		}
+		if a.Code != 0 {
+			// an error acknowledgement — whatever made the execution fail (result code of the contract, EVM revert, failing
+			// post-transaction hook, failing write-back of the EVM state) — must leave NOTHING behind on the destination
+			if diff := c03SnapDiff(deepBefore, h.valueSnapshot(d)); diff != "" {
+				h.find("C03:error-ack-left-state-behind:"+o.call, fmt.Sprintf("packet %s: error acknowledgement (code %d) written, but contract storage / balances of the destination are not what they were before the receive", key, a.Code),
+					diff, "unchanged")
+			}
+			r.Count("recv.error-ack.deep-compared")
+		}
 		if a.Code != 0 && o.dstEffect {
 			// property: an error acknowledgement means no token or contract effect is left on the destination
 			h.find("C03:error-ack-with-destination-effect:"+o.call, fmt.Sprintf("packet %s: error acknowledgement (code %d) written, but the destination's token/contract views changed", key, a.Code),
@@ -1218,7 +1336,12 @@ func (h *c03Harness) apply0(op string) string {
 			if o != nil && rec != nil && rec.ack != nil && !forge && o.received && !o.acked && w.hasCommitment(s, d, q) {
 				// the genuine acknowledgement of a packet that is still committed, with its genuine proof
 				r.Count("ack.err.genuine")
-				if o.cb && h.switchOn[s] {
+				if resolvable && o.feeAmt != nil && o.feeAmt.Sign() > 0 && o.feeTok == (common.Address{}) && h.isBlocked(s, recipient) && !(o.cb && h.switchOn[s]) {
+					// the relay fee is in the native coin and the relayer the registry resolves is a module account the bank
+					// refuses to credit: the whole message fails, nothing changes; goes through after a re-registration
+					o.feeBlocked++
+					r.Count("ack.rejected.fee-recipient-blocked")
+				} else if o.cb && h.switchOn[s] {
 					// the sender's callback contract reverts: OnAcknowledgePacket reverts, the whole message is rejected, nothing
 					// changes, the same acknowledgement can be relayed again once the callback goes through
 					o.cbRejected++
@@ -1265,6 +1388,12 @@ func (h *c03Harness) apply0(op string) string {
 		}
 		if h.regVersion[s] != o.regAtRecv {
 			r.Count("ack.ok.after-reregistration")
+		}
+		if o.feeBlocked > 0 {
+			r.Count("ack.ok.after-fee-recipient-blocked")
+		}
+		if resolvable && o.feeAmt != nil && o.feeAmt.Sign() > 0 && o.feeTok == (common.Address{}) && h.isBlocked(s, recipient) {
+			h.find("C03:blocked-fee-recipient-paid", fmt.Sprintf("packet %s: acknowledgement accepted although its relay fee goes to an account the bank refuses to credit", key), "accepted", "rejected as a whole")
 		}
 		if o.cbRejected > 0 {
 			// first delivery failed in the callback, the retry goes through: everything below (fee once, refund once) applies
